@@ -615,11 +615,56 @@ func yamlBytes(maxLen int) hlib.Suite {
 	}}
 }
 
+// peakRateSuite: the gaussian --peak-rate flag takes a rate string too; an
+// accepted one means what it spells: with the default 24 h window and 1 s
+// ticks, the tick at the peak requests N per <duration>, per second.
+func peakRateSuite() hlib.Suite {
+	return hlib.Suite{Name: "gaussian-peak-rate/means-what-it-spells", Run: func(r *hlib.Rec) {
+		counts := []int{1, 3, 7, 90, 2000}
+		units := []string{"s", "1s", "2s", "500ms", "100ms", "ms", "1500us", "500us", "250us", "m", "90s", "h", "2500us", "1.5ms"}
+		for _, n := range counts {
+			for _, u := range units {
+				if !r.Mine() {
+					continue
+				}
+				r.Eval()
+				str := fmt.Sprintf("%d/%s", n, u)
+				_, accept, wn, wu := refRate(str)
+				input := fmt.Sprintf("f1 run gaussian --peak-rate %s (defaults otherwise: 24h window, peak at 14h, 1s ticks)", str)
+				r.SampleCase(input)
+				tr, _, err := (&hlib.RunSpec{Mode: "gaussian", Flags: map[string]string{"peak-rate": str, "distribution": "none", "jitter": "0"}}).BuildTrigger()
+				if err != nil {
+					if accept {
+						r.Distinct("rejected " + u)
+					}
+					continue
+				}
+				if !accept {
+					continue
+				}
+				tps := float64(wn) / wu.Seconds()
+				// the first tick of a fresh rate function, asked at the peak: no carried fraction yet
+				at := time.Date(2024, 1, 1, 14, 0, 0, 0, time.UTC)
+				var got int
+				if p, pv := hlib.Catch(func() { got = tr.DryRun(at) }); p {
+					r.Fail("C14/peak-rate-panics", u, fmt.Sprint(pv), input)
+					continue
+				}
+				if d := float64(got) - tps; d > 1+0.005*tps || d < -1-0.005*tps {
+					r.Fail("C14/peak-rate-meaning", "unit="+u, fmt.Sprintf("the tick at the peak requests %d, the string spells %.4g per second", got, tps), input)
+				}
+				r.Distinct("accepted " + u)
+			}
+		}
+		r.Sample(map[string]any{"counts": counts, "units": units})
+	}}
+}
+
 func suites(tier string) []hlib.Suite {
 	if tier == "quick" {
-		return []hlib.Suite{rateStrings(6), rateStringsWide(4), stagesStrings(6), cliSuite(false), yamlSuite(true), yamlBytes(2)}
+		return []hlib.Suite{rateStrings(6), rateStringsWide(4), peakRateSuite(), stagesStrings(6), cliSuite(false), yamlSuite(true), yamlBytes(2)}
 	}
-	return []hlib.Suite{rateStrings(7), rateStringsWide(5), stagesStrings(7), cliSuite(true), yamlSuite(true), yamlBytes(3)}
+	return []hlib.Suite{rateStrings(7), rateStringsWide(5), peakRateSuite(), stagesStrings(7), cliSuite(true), yamlSuite(true), yamlBytes(3)}
 }
 
 func main() { hlib.EnumMain("C14", suites) }
